@@ -363,15 +363,25 @@ impl Ord for Num {
             (Self::Int(i), Self::Float(f)) => float_cmp(*i as f64, *f),
             (Self::BigInt(x), Self::Int(y)) => (**x).cmp(&BigInt::from(*y)),
             (Self::BigInt(x), Self::BigInt(y)) => x.cmp(y),
-            // BigInt::to_f64 always yields Some, large values become f64::INFINITY
-            (Self::BigInt(x), Self::Float(y)) => float_cmp(x.to_f64().unwrap(), *y),
+            (Self::BigInt(x), Self::Float(y)) => big_float_cmp(x, *y),
             (Self::Float(f), Self::Int(i)) => float_cmp(*f, *i as f64),
-            (Self::Float(x), Self::BigInt(y)) => float_cmp(*x, y.to_f64().unwrap()),
+            (Self::Float(x), Self::BigInt(y)) => big_float_cmp(y, *x).reverse(),
             (Self::Float(x), Self::Float(y)) => float_cmp(*x, *y),
             (Self::Dec(x), Self::Dec(y)) if Rc::ptr_eq(x, y) => Ordering::Equal,
             (Self::Dec(n), y) => Self::from_dec_str(n).cmp(y),
             (x, Self::Dec(n)) => x.cmp(&Self::from_dec_str(n)),
         }
+    }
+}
+
+/// Compare a big integer with a float.
+fn big_float_cmp(left: &BigInt, right: f64) -> Ordering {
+    if right.is_infinite() {
+        // integers are finite, even if they are too large to be converted to a finite float
+        float_cmp(0.0, right)
+    } else {
+        // BigInt::to_f64 always yields Some, large values become f64::INFINITY
+        float_cmp(left.to_f64().unwrap(), right)
     }
 }
 
